@@ -274,6 +274,9 @@ RulesLoop:
 	}
 	// Reset Skip counter at the end of each phase. Skip actions work only within the current processing phase
 	tx.Skip = 0
+	// A pending skipAfter marker is dropped as well: a marker that is absent from (or precedes the jumping rule in)
+	// this phase must not make the next phase skip its rules.
+	tx.SkipAfter = ""
 
 	tx.stopWatches[phase] = time.Now().UnixNano() - ts
 	return tx.IsInterrupted()
